@@ -28,7 +28,22 @@ def _c12_bool_next_to_symbol():
     return "wf = Wavefunction([x, .5, .5, .5]); wf[1] = True was accepted (numeric entries then carry 1.5); wf[1] = 1 is rejected"
 
 
-PROBES = {"C17": [("weights-narrow-numpy-int-total-wraps", _c17_narrow_weights)],
+def _c03_numpy_zero_divisor():
+    common.use_repo()
+    import warnings
+    import numpy as np
+    from orquestra.quantum.operators import PauliTerm
+    try:
+        with warnings.catch_warnings():
+            warnings.simplefilter("ignore")
+            r = PauliTerm("X0*Z1", 2.0) / np.float64(0)
+    except Exception:  # noqa: BLE001  (any refusal is what the property needs)
+        return None
+    return f"PauliTerm('X0*Z1', 2.0) / np.float64(0) returned {r!r} (a coefficient that denotes no matrix) instead of raising like / 0, / 0.0, / 0j"
+
+
+PROBES = {"C03": [("division-by-numpy-zero-returns-nonfinite", _c03_numpy_zero_divisor)],
+          "C17": [("weights-narrow-numpy-int-total-wraps", _c17_narrow_weights)],
           "C12": [("bool-entry-next-to-symbols", _c12_bool_next_to_symbol)]}
 
 
